@@ -230,6 +230,27 @@ pub fn check(c: &c01::Case) -> Verdict {
             retried += 1;
         }
     }
+    // a destination that accepts writes only in pieces: whatever the pieces, once the request has
+    // returned Ok the stored image - every directory slot included - must be the returned one
+    {
+        let piece = 1 + (fp_json(c) >> 24) as usize % 700;
+        let mut w2 = make_writer(t.pid, &opts);
+        let mut d2 = Dest::new(vec![], 0).with_max_write(Some(piece));
+        match run_dump(&mut w2, &mut d2) {
+            DumpOutcome::Panic(loc, msg) => return panic_verdict(&loc, &msg),
+            DumpOutcome::Ok(v) => {
+                let stored = d2.data();
+                if stored != v {
+                    let at = (0..stored.len().min(v.len())).find(|i| stored[*i] != v[*i]).unwrap_or(stored.len().min(v.len()));
+                    return Verdict::viol("C10:pieces:stored-image-incomplete", format!("destination accepting {piece} bytes per write: stored {} bytes, returned image {} bytes, first difference at {at}{}", stored.len(), v.len(), if at >= 32 && at < 32 + 18 * 12 { " (inside the directory)" } else { "" }));
+                }
+            }
+            DumpOutcome::Err(_) => {}
+        }
+        if !t.wait_settled(&bt.spec) {
+            return Verdict::Inconclusive("target did not settle".into());
+        }
+    }
     let mut classes = vec![format!("writes:{}", n_snaps / 10 * 10)];
     if deny != 0 {
         classes.push("best-effort-files-unopenable(unused-slots-mid-image)".into());
@@ -256,7 +277,7 @@ pub fn run(ctx: &mut LaneCtx) {
         SubSpec {
             name: "prefix-snapshots",
             cases: (128, 6_000),
-            rule: "generated scenarios (as C01, up to 6 extra threads) dumped into a recording destination (empty, or holding 400 KiB of older content that is overwritten from position 0 or 4096; in a quarter of the scenarios a subset of the best-effort files cannot be opened by the dumper, so that directory slots stay unused in the middle of the image); EVERY write boundary of each scenario is decoded in truncation mode and an I/O error is injected at EVERY destination call in turn (exhaustive per scenario), and for two of those calls the same writer then makes another request whose prefixes are judged as well; non-trivial = scenario has boundaries between the append of a stream and the write of its directory entry; distinct = hash of scenario",
+            rule: "generated scenarios (as C01, up to 6 extra threads) dumped into a recording destination (empty, or holding 400 KiB of older content that is overwritten from position 0 or 4096; in a quarter of the scenarios a subset of the best-effort files cannot be opened by the dumper, so that directory slots stay unused in the middle of the image); EVERY write boundary of each scenario is decoded in truncation mode and an I/O error is injected at EVERY destination call in turn (exhaustive per scenario), and for two of those calls the same writer then makes another request whose prefixes are judged as well; one more request per scenario goes to a destination that accepts only 1..700 bytes per write call and must leave exactly the returned image there; non-trivial = scenario has boundaries between the append of a stream and the write of its directory entry; distinct = hash of scenario",
             strategy: c01::case_strategy(7).boxed(),
             max_shrink_iters: 100,
             log_current: true,
